@@ -81,6 +81,8 @@ def universe_distinct_leaves():
         [1, 1, "a"], {"a": [10, "x", None], "b": {"a": "y", "b": 2.5}}, [["p", 7], ["q", 8]],
         {"ab": {"a": 1, "b": "t"}, "a": 0}, [{"a": 1, "b": 2}, {"a": "u"}, 3],
         {"0": "s", "12": [10, {"7": None}], "a": {"0": 1.5}},      # property names made of digits only
+        # names whose rendering collides with a nested location ($.a.b, $.c[0])
+        {"a.b": 1, "a": {"b": "s"}, "c[0]": None, "c": [2.5, "t"]},
     ]
 
 
